@@ -49,8 +49,18 @@ SHAPES = {
 }
 
 
-def _build(V, shape, leaves, mults, pos):
-    """Returns (expression value, reference flat list)."""
+def _elements(v):
+    for attr in ("moves", "operations"):
+        if hasattr(v, attr):
+            return list(getattr(v, attr))
+    return None
+
+
+def _build(V, shape, leaves, mults, pos, seen=None):
+    """Returns (expression value, reference flat list).  `seen` collects every intermediate value together with
+    the elements it had when it was created: an operator must not change its operands."""
+    if seen is None:
+        seen = []
     if shape == "L":
         i = pos[0]
         pos[0] += 1
@@ -58,14 +68,27 @@ def _build(V, shape, leaves, mults, pos):
         m = mults[i]
         if m == 1:
             return obj, [obj]
-        return obj * m, [obj] * m
+        v = obj * m
+        seen.append((v, _elements(v)))
+        return v, [obj] * m
     l, r = shape
-    lv, lf = _build(V, l, leaves, mults, pos)
-    rv, rf = _build(V, r, leaves, mults, pos)
-    return lv + rv, lf + rf
+    lv, lf = _build(V, l, leaves, mults, pos, seen)
+    rv, rf = _build(V, r, leaves, mults, pos, seen)
+    v = lv + rv
+    seen.append((v, _elements(v)))
+    return v, lf + rf
 
 
-def sc_moves(V, nleaves=3, kinds=KINDS):
+def _operands_unchanged(seen):
+    bad = []
+    for v, els in seen:
+        now = _elements(v)
+        if els is not None and (now is None or len(now) != len(els) or any(a is not b for a, b in zip(now, els))):
+            bad.append(f"{type(v).__name__}:{len(els)}->{len(now) if now is not None else None}")
+    return bad
+
+
+def sc_moves(V, nleaves=3, kinds=KINDS, reuse=False):
     from quansino.moves.composite import CompositeMove
     from quansino.moves.displacement import CompositeDisplacementMove
     from quansino.moves.exchange import CompositeExchangeMove
@@ -76,16 +99,24 @@ def sc_moves(V, nleaves=3, kinds=KINDS):
     mults = [1 + V.choice(f"mult{i}", 2) for i in range(nleaves)]
     rootm = 1 + V.choice("rootmult", 2)
     leaves = [_leaf(k) for k in ks]
-    info = f"shape={shape}:kinds={''.join(ks)}:mults={mults}:root*{rootm}"
+    info = f"shape={shape}:kinds={''.join(ks)}:mults={mults}:root*{rootm}" + (":reuse" if reuse else "")
+    seen = []
     try:
-        val, flat = _build(V, shape, leaves, mults, [0])
+        val, flat = _build(V, shape, leaves, mults, [0], seen)
         if rootm > 1:
             val = val * rootm
             flat = flat * rootm
+        if reuse and seen:
+            # the same sub-expression object used a second time
+            sub, els = seen[V.choice("reuse_which", len(seen))]
+            val = val + sub
+            flat = flat + list(els)
     except Exception as ex:  # noqa: BLE001
         V.fail("expression-evaluates", info=info + ":" + type(ex).__name__)
         return
     V.reach("built")
+    bad = _operands_unchanged(seen)
+    V.prove(not bad, "operands-unchanged", info=info + ":" + ",".join(bad[:3]))
     if len(flat) == 1 and not hasattr(val, "moves"):
         V.prove(val is leaves[0], "single-leaf-is-itself", info=info)
         return
@@ -173,7 +204,7 @@ def _op_leaf(kind):
     return UserOp()
 
 
-def sc_operations(V, nleaves=3):
+def sc_operations(V, nleaves=3, reuse=False):
     from quansino.operations.composite import CompositeOperation
 
     kinds = ("box", "ball", "tr", "user")
@@ -183,16 +214,23 @@ def sc_operations(V, nleaves=3):
     mults = [1 + V.choice(f"mult{i}", 2) for i in range(nleaves)]
     rootm = 1 + V.choice("rootmult", 2)
     leaves = [_op_leaf(k) for k in ks]
-    info = f"ops:shape={shape}:kinds={ks}:mults={mults}:root*{rootm}"
+    info = f"ops:shape={shape}:kinds={ks}:mults={mults}:root*{rootm}" + (":reuse" if reuse else "")
+    seen = []
     try:
-        val, flat = _build(V, shape, leaves, mults, [0])
+        val, flat = _build(V, shape, leaves, mults, [0], seen)
         if rootm > 1:
             val = val * rootm
             flat = flat * rootm
+        if reuse and seen:
+            sub, els = seen[V.choice("reuse_which", len(seen))]
+            val = val + sub
+            flat = flat + list(els)
     except Exception as ex:  # noqa: BLE001
         V.fail("expression-evaluates", info=info + ":" + type(ex).__name__)
         return
     V.reach("built")
+    bad = _operands_unchanged(seen)
+    V.prove(not bad, "operands-unchanged", info=info + ":" + ",".join(bad[:3]))
     if len(flat) == 1 and not hasattr(val, "operations"):
         V.prove(val is leaves[0], "single-leaf-is-itself", info=info)
         return
@@ -214,10 +252,14 @@ def _plan(tier):
         ("call", dict(k=3), ("called",)),
         ("operations", dict(nleaves=2), ("built",)),
         ("operations", dict(nleaves=3), ("built",)),
+        ("operations", dict(nleaves=2, reuse=True), ("built",)),
+        ("moves", dict(nleaves=2, reuse=True), ("built",)),
     ]
     if not q:
         P.append(("moves", dict(nleaves=4, kinds=("d", "e", "c")), ("built",)))
         P.append(("call", dict(k=4), ("called",)))
+        P.append(("operations", dict(nleaves=3, reuse=True), ("built",)))
+        P.append(("moves", dict(nleaves=3, reuse=True, kinds=("d", "e", "c")), ("built",)))
     P.append(("moves", dict(nleaves=2), (), "specialised-iff-homogeneous"))
     return P
 
